@@ -90,7 +90,7 @@ class FakeSocket:
             self._record_rest = stash[n:]
             return stash[:n]
         r = self.ctl.ask('read', n)
-        if isinstance(r, (bytes, bytearray)) and len(r) > n:
+        if getattr(self, 'records', False) and isinstance(r, (bytes, bytearray)) and len(r) > n:
             # the scripted peer wrote one TLS record of more than n octets: recv(n) returns its first n octets, the rest is pending
             self._record_rest = bytes(r[n:])
             r = bytes(r[:n])
@@ -191,6 +191,7 @@ def make_session(kind, device_params=None, nc_params=None, ignore_errors=None):
         s.join = lambda timeout=None: real_join(None if timeout is None else min(timeout, 0.01))
     else:
         s._socket = FakeSocket(ctl)
+        s._socket.records = (kind == 'tls')        # only an SSL socket holds the rest of a record (pending())
     s._connected = True
     s._closing.clear()
     ctl.thread = s
